@@ -765,6 +765,7 @@ package gtab
 //@   ensures forall i int :: 0 <= i && i < len(ctx.seq) && (i != a || next == -1) ==> ctx.seq[i].XOffset == old(ctx.seq[i].XOffset) && ctx.seq[i].YOffset == old(ctx.seq[i].YOffset)
 //@   return_assert next >= 0 ==> 0 <= p && p < a && has(l.Mark2Cov, seq[p].GID) && forall q int :: p < q && q < a ==> !has(l.Mark2Cov, seq[q].GID)
 //@   return_assert next >= 0 ==> seq[a].YOffset == int16(mark2Record.Y - mark1Record.Y)
+//@   return_assert next >= 0 ==> forall q int :: p < q && q < a ==> !keptG(ctx.keep, seq[q].GID)   // OpenType: the second mark is the nearest preceding glyph the lookup flags do not skip (open finding F38)
 //@   modifies ctx.seq[*]
 //@   loop 0
 //@     invariant -1 <= p && p < a && ref(seq) == ref(ctx.seq) && off(seq) == off(ctx.seq) && len(seq) == len(ctx.seq) && len(ctx.seq) == old(len(ctx.seq))
